@@ -764,7 +764,14 @@ class Interp:
                 r = self.eval(node.test, frame)
             finally:
                 self.ctx.pure -= 1
-            self.ctx.oblige(f"{contract_tag(self.top_contract)}/assert.L{node.lineno - frame.fn.__code__.co_firstlineno}", ops.truth_term(r))
+            # (an intermediate assertion usually follows from the few facts established just before it: the discharger
+            # first tries it from the last dozen hypotheses alone - proving from fewer hypotheses is sound)
+            prev_mark = getattr(self.ctx, "pc_mark", None)
+            self.ctx.pc_mark = max(0, len(self.ctx.pc) - 12)
+            try:
+                self.ctx.oblige(f"{contract_tag(self.top_contract)}/assert.L{node.lineno - frame.fn.__code__.co_firstlineno}", ops.truth_term(r))
+            finally:
+                self.ctx.pc_mark = prev_mark
             return
         if not self.truth(self.eval(node.test, frame)):
             self.raise_exc(AssertionError)
